@@ -139,3 +139,17 @@ case("C18", "pairs-inner-from-i", "VIOLATION", [(AN, "\t\t\tfor j, idx1 in enume
 case("C18", "pairs-diagonal-doubled", "VIOLATION", [(AN, "\t\t\t\tif symmetric and idx0 != idx1:\n\t\t\t\t\ty[idx1, idx0] += 1", "\t\t\t\tif symmetric:\n\t\t\t\t\ty[idx1, idx0] += 1")], "R-SIB")
 case("C18", "count-stride-examples", "VIOLATION", [(AN, "X_idxs = X[:, 0] * n_annotations + X[:, 1]", "X_idxs = X[:, 0] * n_examples + X[:, 1]")], "R-AXES")
 case("C18", "count-dim-swapped", "VIOLATION", [(AN, "y.scatter_add_(0, X[:, 1], X_ones)", "y.scatter_add_(0, X[:, 0], X_ones)")], "R-SIB")
+
+# ------------------------------------------------------------------ C10
+V = "tangermeme/variant_effect.py"
+prefix("C10", "D4-prefix-mask-sum", V, "14895c0", "R-MASK", "variant_effect.deletion_effect")
+case("C10", "del-trim-sides-exchanged", "VIOLATION", [(V, "\tif left == True:\n\t\tX = X[:, :, -X_var.shape[-1]:]\n\telse:\n\t\tX = X[:, :, :X_var.shape[-1]]", "\tif left == True:\n\t\tX = X[:, :, :X_var.shape[-1]]\n\telse:\n\t\tX = X[:, :, -X_var.shape[-1]:]")], "R-SIB")
+case("C10", "del-flank-not-unflipped", "VIOLATION", [(V, "| (flank if left == True else torch.flip(\n\t\tflank, dims=(-1,)))", "| (flank if left == True else torch.flip(\n\t\tmask, dims=(-1,)))")], "R-SIB")
+case("C10", "del-logical-or-spelling", "HOLDS", [(V, "\tmask = mask.type(torch.bool) | (flank if left == True else torch.flip(\n\t\tflank, dims=(-1,)))\n\tmask = ~mask", "\tmask = torch.logical_or(mask.type(torch.bool), flank if left == True else torch.flip(\n\t\tflank, dims=(-1,)))\n\tmask = ~mask")])
+case("C10", "del-clamped-sum", "HOLDS", [(V, "\tmask = mask.type(torch.bool) | (flank if left == True else torch.flip(\n\t\tflank, dims=(-1,)))\n\tmask = ~mask", "\tmask = mask + (flank if left == True else torch.flip(\n\t\tflank, dims=(-1,)))\n\tmask = mask.clamp(max=1)\n\tmask = (1 - mask).type(torch.bool)")])
+case("C10", "ins-ascending-no-offset", "VIOLATION", [(V, "descending=True)]", "descending=False)]")], "R-ORDER")
+case("C10", "ins-unsorted-flip", "VIOLATION", [(V, "\t\tinsertions_ = insertions[insertions[:, 0] == i]\n\t\tinsertions_ = insertions_[torch.argsort(insertions_[:, 1], \n\t\t\tdescending=True)]", "\t\tinsertions_ = insertions[insertions[:, 0] == i].flip(0)")], None, "variant_effect.insertion_effect")
+case("C10", "ins-all-rows", "VIOLATION", [(V, "insertions_ = insertions[insertions[:, 0] == i]", "insertions_ = insertions[insertions[:, 0] >= i]")], "INS")
+case("C10", "ins-trim-exchanged", "VIOLATION", [(V, "\t\tif left == True:\n\t\t\tx = x[:, :, -X.shape[-1]:]\n\t\telse:\n\t\t\tx = x[:, :, :X.shape[-1]]", "\t\tif left == True:\n\t\t\tx = x[:, :, :X.shape[-1]]\n\t\telse:\n\t\t\tx = x[:, :, -X.shape[-1]:]")], "R-SIB")
+case("C10", "sub-no-clone", "VIOLATION", [(V, "X_var = torch.clone(X)", "X_var = X")], None, "variant_effect.substitution_effect")
+case("C10", "sub-position-column-mismatch", "VIOLATION", [(V, "X_var[substitutions[:, 0], :, substitutions[:, 1]] = 0", "X_var[substitutions[:, 0], :, substitutions[:, 2]] = 0")], "SUBST")
